@@ -14,14 +14,14 @@ use pest_typed::tracker::Tracker;
 use pest_typed::{AsInput, Position, Stack, TypedNode};
 
 /// pop, push, then a pure child that may fail: the net stack length is unchanged when the attempt fails
-type PopPushX = Seq3<Nk<Abs<0, 2>>, Nk<Abs<1, 1>>, Nk<Abs<2, 0>>>;
-type RPopPushX = RSeq3<RSk, 0, RAbs<0, 2>, RAbs<1, 1>, RAbs<2, 0>>;
+pub type PopPushX = Seq3<Nk<Abs<0, 2>>, Nk<Abs<1, 1>>, Nk<Abs<2, 0>>>;
+pub type RPopPushX = RSeq3<RSk, 0, RAbs<0, 2>, RAbs<1, 1>, RAbs<2, 0>>;
 /// push, push, fail?
-type PushPushX = Seq3<Nk<Abs<0, 1>>, Nk<Abs<1, 1>>, Nk<Abs<2, 0>>>;
-type RPushPushX = RSeq3<RSk, 0, RAbs<0, 1>, RAbs<1, 1>, RAbs<2, 0>>;
+pub type PushPushX = Seq3<Nk<Abs<0, 1>>, Nk<Abs<1, 1>>, Nk<Abs<2, 0>>>;
+pub type RPushPushX = RSeq3<RSk, 0, RAbs<0, 1>, RAbs<1, 1>, RAbs<2, 0>>;
 /// pop, pop, fail?
-type PopPopX = Seq3<Nk<Abs<0, 2>>, Nk<Abs<1, 2>>, Nk<Abs<2, 0>>>;
-type RPopPopX = RSeq3<RSk, 0, RAbs<0, 2>, RAbs<1, 2>, RAbs<2, 0>>;
+pub type PopPopX = Seq3<Nk<Abs<0, 2>>, Nk<Abs<1, 2>>, Nk<Abs<2, 0>>>;
+pub type RPopPopX = RSeq3<RSk, 0, RAbs<0, 2>, RAbs<1, 2>, RAbs<2, 0>>;
 
 /// Predicates (and a choice all of whose alternatives fail) give the stack back whatever the verdict.
 fn always_restores<'i, T: TypedNode<'i, R>>(d0: usize)
